@@ -23,3 +23,4 @@ open Gossamer.C35
 #print axioms C35_limiter_seq
 #print axioms C35_limiter_counts_all
 #print axioms C35_limiter_unlocked_rejected
+#print axioms C35_triecache_table
